@@ -162,6 +162,10 @@ def run(ctx):
     report(fails)
     counts["consequence_ma"] += n
     ctx.case(("consequence-ma", "big-group"))
+    fails, n = op.check_key_order(ctx.seed)
+    report(fails)
+    counts["consequence_key_order"] = n
+    ctx.case(("consequence", "key-order"))
     if op.INSENSITIVE and not ctx.violations:
         raise tlc.TLCError(f"vacuity guard: network outputs do not distinguish the observations in {op.INSENSITIVE}")
     ctx.extra["conformance_counts"] = counts
